@@ -73,6 +73,16 @@ def main():
     for c in cmds:
         if re.search(r" -o (lib/\S+\.so\S*|bin/\S+|lib/simgrid/\S+) ", c) and " -c " not in c:
             sh(retarget(c, wt), cwd=cl)
+    # the SMPI wrapper scripts hard-code the build and source directories
+    for f in os.listdir(cl + "/smpi_script/bin"):
+        fp = os.path.join(cl, "smpi_script/bin", f)
+        try:
+            t = open(fp).read()
+        except (UnicodeDecodeError, IsADirectoryError):
+            continue
+        t2 = t.replace(BASE, cl).replace("/repo/include", wt + "/include")
+        if t2 != t:
+            open(fp, "w").write(t2)
     open(cl + "/.verif_mutclone", "w").write(patch + "\n")
     print("rebuilt %d objects (%d sources, %d headers changed)" % (len(compile_cmds), len(srcs), len(hdrs)), file=sys.stderr)
     print("VERIF_REPO=%s VERIF_BUILD=%s" % (wt, bd))
